@@ -2,7 +2,7 @@
 
 use crate::rng::Rng;
 
-pub const CLASS_NAMES: [&str; 17] = [
+pub const CLASS_NAMES: [&str; 18] = [
     "zeros",
     "single_run",
     "period_p",
@@ -20,6 +20,7 @@ pub const CLASS_NAMES: [&str; 17] = [
     "alphabet200",
     "mixed_segments",
     "lazy_chains",
+    "window_edge_repeats",
 ];
 
 pub const NUM_CLASSES: usize = CLASS_NAMES.len();
@@ -130,11 +131,12 @@ pub fn gen(rng: &mut Rng, class: usize, n: usize) -> Vec<u8> {
         }
         14 => (0..n).map(|_| rng.below(200) as u8).collect(),
         16 => lazy_chains(rng, n),
+        17 => window_edge(rng, n),
         _ => {
             let mut v = Vec::with_capacity(n);
             while v.len() < n {
                 let seg = 1 + rng.size_biased(n.min(20000));
-                let c = if rng.chance(1, 8) { 16 } else { rng.below(15) };
+                let c = if rng.chance(1, 8) { 16 } else if rng.chance(1, 8) { 17 } else { rng.below(15) };
                 let part = gen(rng, c, seg);
                 v.extend_from_slice(&part);
             }
@@ -188,4 +190,38 @@ pub fn lazy_chains(rng: &mut Rng, n: usize) -> Vec<u8> {
     }
     out.truncate(n);
     out
+}
+
+/// Matches at the far edge of the 32 KiB window. A case-paired 64-symbol alphabet (the pairs
+/// differ only in bit 5, which trigram hashes tend to drop) filled at random, then, from offset
+/// 32 KiB on, planted repeats of 4..=200 bytes whose distance lies within a few bytes of the
+/// window limits (32768, 32768 - 258 +- k, 32768 - 4096*j): half of them with the *first* byte
+/// of the copy case-flipped (same hash bucket, not a match at that position), and often with the
+/// byte one maximum match length ahead made equal to the first byte, so that any stale or
+/// off-by-one view of the circular dictionary turns into a wrong byte.
+pub fn window_edge(rng: &mut Rng, n: usize) -> Vec<u8> {
+    const ALPHA: &[u8; 64] = b"abcdefghijklmnopqrstuvwxyzABCDEFGHIJKLMNOPQRSTUVWXYZ@`[{\\|]}^~_\x7f";
+    let mut v: Vec<u8> = (0..n).map(|_| ALPHA[rng.below(64)]).collect();
+    let mut x = 32_768 + rng.below(64);
+    while x + 300 < n {
+        let d = match rng.below(6) {
+            0 => 32_768 - rng.below(4),
+            1 | 2 => 32_768 - 258 + 3 - rng.below(8),
+            3 => 32_768 - 4096 * (1 + rng.below(3)) + 2 - rng.below(5),
+            4 => 32_768 - rng.below(300),
+            _ => 32_768 - 258 - rng.below(4),
+        };
+        let l = 4 + rng.below(197);
+        if d <= x {
+            for k in 1..l {
+                v[x + k] = v[x - d + k];
+            }
+            v[x] = if rng.bool() { v[x - d] ^ 0x20 } else { v[x - d] };
+            if rng.chance(2, 3) && l < 257 {
+                v[x + 257] = v[x];
+            }
+        }
+        x += l + 60 + rng.below(700);
+    }
+    v
 }
